@@ -114,12 +114,18 @@ struct SC
   }
 };
 
-struct TrA : public sigc::trackable
+// a base class that is not a sigc::trackable: mem_fun with a method inherited from it must still
+// track the object through its own (trackable) class
+struct RunNB
+{
+  int run_nb(const SC& sc, int arg) { long b = sc.body; return run_script(b, arg); }
+};
+struct TrA : public RunNB, public sigc::trackable
 {
   int run_sc(const SC& sc, int arg) { long b = sc.body; return run_script(b, arg); }
 };
 struct TrVBase : virtual public sigc::trackable { int pad = 0; };
-struct TrB : public TrVBase
+struct TrB : public RunNB, public TrVBase
 {
   int more = 0;
   int run_sc(const SC& sc, int arg) { long b = sc.body; return run_script(b, arg); }
@@ -348,6 +354,12 @@ static SlotT* make_functor_slot(char shape, long body, const std::vector<long>& 
     with_tr(*ts[0], [&](auto& o) {
       using C = std::remove_reference_t<decltype(o)>;
       out = mk<SlotT>(sigc::bind<0>(sigc::mem_fun(o, &C::run_sc), SC(body)));
+    });
+  }
+  else if (shape == 'n' && ts.size() == 1)
+  {
+    with_tr(*ts[0], [&](auto& o) {
+      out = mk<SlotT>(sigc::bind<0>(sigc::mem_fun(o, &RunNB::run_nb), SC(body)));
     });
   }
   else if (shape == 'b' && ts.size() == 1)
